@@ -634,6 +634,17 @@ FrameV._mentions = _frame_mentions
 FrameV._subst = _frame_subst
 SeriesV._mentions = lambda self, L: __import__("pyvc.loops", fromlist=["x"]).mentions(self.arr, L)
 SeriesV._subst = lambda self, L, j: SeriesV(self.name, __import__("pyvc.loops", fromlist=["x"]).subst_value(self.arr, L, j))
+def _with_row_index(self, name="index", offset=0):
+    """polars with_row_index: a new first column holding the row number"""
+    fr = self._like(self.n, lambda i: i)
+    cols = {name: SArr((self.n,), lambda idx: V.arith("+", idx[0], offset), "int")}
+    cols.update(fr.cols)
+    fr.cols = cols
+    return fr
+
+
+FrameV.with_row_index = _with_row_index
+FrameV.with_row_count = _with_row_index
 FrameV.group_by = _group_by
 FrameV.filter = _filter
 FrameV.sort = _sort
